@@ -443,7 +443,10 @@ def execute(prop, plan, tier, seed, expinfo, t_start):
             plan.notes.append('independent re-check: %d solver answers agree with the primary' % agree)
 
     # ---- Kani
-    if plan.kani:
+    if plan.kani and os.environ.get("VEKVERIF_DEV_SKIP_KANI"):
+        # development aid only (never set by a registered command): the run is then reported UNDECIDED, never OK
+        undecided.append('kani part skipped (VEKVERIF_DEV_SKIP_KANI)')
+    elif plan.kani:
         import kani_driver
         kr = kani_driver.run(plan.kani, workdir, tier)
         for h in kr:
